@@ -75,11 +75,16 @@ func (f *in) Listen(onMsg func(msg []byte, milliseconds int32), conf drivers.Lis
 	f.last = f.now // the time stamps are on the driver's own clock (see Sleep), not on the wall clock
 	f.stopListening = false
 
+	var rd *drivers.Reader
+
 	stopFn = func() {
-		f.stopListening = true
+		// a stop function ends its own listening only: called again after a later Listen, it must not stop that one
+		if f.rd == rd {
+			f.stopListening = true
+		}
 	}
 
-	f.rd = drivers.NewReader(conf, func(m []byte, ms int32) {
+	rd = drivers.NewReader(conf, func(m []byte, ms int32) {
 		msg := midi.Message(m)
 
 		if msg.Is(midi.ActiveSenseMsg) && !conf.ActiveSense {
@@ -99,6 +104,7 @@ func (f *in) Listen(onMsg func(msg []byte, milliseconds int32), conf drivers.Lis
 		//	f.wg.Done()
 		//fmt.Println("msg handled")
 	})
+	f.rd = rd
 	f.rd.Reset()
 	return stopFn, nil
 }
